@@ -101,6 +101,8 @@ CheckCase(c) ==
     [] c.ev = "tls" -> CheckTls(c)
     [] c.ev = "same" -> CheckSame(c)
     [] c.ev = "shift" -> CheckShift(c)
+    [] c.ev = "frame" ->      \* the weights are the errors present when the fit is called: the call leaves them as they were
+         Verdict(c.id, c.what, c.before = c.after)
     [] OTHER -> Verdict(c.id, "unknown-event", FALSE)
 
 Init == l = 1 /\ LoadCases
